@@ -600,6 +600,53 @@ def report_sections() -> list[str]:
     return out
 
 
+def protocol_reports() -> list[tuple[str, str]]:
+    """every report constructed in `execute.pytask_execute_task_protocol`: (branch, constructor). Each way a task can end — return
+    (`else`), an ordinary exception or sys.exit (`except (Exception, SystemExit)`), KeyboardInterrupt — must build its report with
+    `ExecutionReport.from_task(task)` / `.from_task_and_exception(task, …)` (which copy `task.report_sections`, see
+    `report_sections`); a report built any other way is not recognised."""
+    fn = _hook("execute.py", "pytask_execute_task_protocol")
+    tries = [st for st in _body(fn) if isinstance(st, ast.Try)]
+    if len(tries) != 1:
+        raise _err("pytask_execute_task_protocol: expected exactly one try statement")
+    tr = tries[0]
+
+    def ctor(stmts, where):
+        found = []
+        for st in stmts:
+            for n in ast.walk(st):
+                if isinstance(n, ast.Call) and "ExecutionReport" in _u(n.func):
+                    f = _u(n.func)
+                    if f not in ("ExecutionReport.from_task", "ExecutionReport.from_task_and_exception"):
+                        raise _err(f"pytask_execute_task_protocol ({where}): report built by {f}(…), not by from_task / from_task_and_exception")
+                    if not n.args or _u(n.args[0]) != "task":
+                        raise _err(f"pytask_execute_task_protocol ({where}): {f} is not called with the task")
+                    found.append(f.split(".")[1])
+        assigns = [st for st in stmts if isinstance(st, ast.Assign) and _u(st.targets[0]) == "report"]
+        if len(found) != 1 or len(assigns) != 1:
+            raise _err(f"pytask_execute_task_protocol ({where}): expected exactly one `report = ExecutionReport.from_…(task, …)`")
+        return found[0]
+
+    out = []
+    for h in tr.handlers:
+        if h.type is None:
+            name = "BaseException"
+        elif isinstance(h.type, ast.Tuple):
+            name = ",".join(_u(e) for e in h.type.elts)
+        else:
+            name = _u(h.type)
+        out.append((name, ctor(h.body, name)))
+    if not tr.orelse:
+        raise _err("pytask_execute_task_protocol: no else branch")
+    out.append(("else", ctor(tr.orelse, "else")))
+    for st in _body(fn):
+        if st is not tr:
+            for n in ast.walk(st):
+                if isinstance(n, ast.Call) and "ExecutionReport" in _u(n.func):
+                    raise _err("pytask_execute_task_protocol: a report is built outside the try statement")
+    return out
+
+
 def _split(tok: str):
     """'assert:a,b' -> ('assert', ['a','b']); 'ret-if:x' -> ('ret-if', ['x']); 'state:=x' -> ('state', ['x']); 'sys.m' -> ('sys', ['m']);
     'write:save:utf-8' -> ('write:save', ['utf-8']); others -> (tok, [])"""
@@ -696,5 +743,7 @@ def capgen_section() -> list[str]:
     L.append(f"def buildUnconfigureUnconditional : Bool := {b(mh['build_unconfigure_unconditional'])}")
     L.append("/-- what `ExecutionReport.from_task` / `from_task_and_exception` (reports.py) pass as the report's `sections` -/")
     L.append(f"def reportSections : List String := {strs(report_sections())}")
+    L.append("/-- every report built in `execute.pytask_execute_task_protocol`: (way the task ended, constructor) -/")
+    L.append("def protocolReports : List (String × String) := " + X.lean_list(protocol_reports(), lambda e: f"({s(e[0])}, {s(e[1])})"))
     L += ["", "end Cap", ""]
     return L
